@@ -54,6 +54,8 @@ MACHINE_OPS
 #[verifier::external_body] pub fn i128_to_f(x: i128) -> (r: FloatV) ensures r == int_to_f(x as int) { unimplemented!() }
 #[verifier::external_body] pub fn u8_to_f(x: u8) -> (r: FloatV) ensures r == int_to_f(x as int) { unimplemented!() }
 #[verifier::external_body] pub fn f_is_zero(f: &FloatV) -> (r: bool) ensures r == f_zero(*f) { unimplemented!() }
+pub uninterp spec fn f_other(f: FloatV) -> bool;
+#[verifier::external_body] pub fn f_other_test(f: &FloatV) -> (r: bool) ensures r == f_other(*f) { unimplemented!() }
 """
 
 
@@ -169,8 +171,12 @@ def impl_rules(op):
     return [
         Rule("R3", "bail ! $a", "return Err ( VErr )", why="bail! -> return Err"),
         Rule("R3", "log :: error ! $a ;", "", why="logging dropped"),
+        Rule("R1", "int ! ( $$e )", "Primitive :: Int ( $$e )", why="int! shorthand"), Rule("R1", "bigint ! ( $$e )", "Primitive :: BigInt ( $$e )", why="bigint! shorthand"),
+        Rule("R1", "byte ! ( $$e )", "Primitive :: Byte ( $$e )", why="byte! shorthand"), Rule("R1", "bool ! ( $$e )", "Primitive :: Bool ( $$e )", why="bool! shorthand"),
+        Rule("R1", "( self , rhs )", "( this , rhs )", why="receiver renamed in the model"),
         Rule("R1", "let ( t1 , t2 ) = ( & self , & rhs ) ;", "let ( t1 , t2 ) = ( this , rhs ) ;", count=1, why="&&Primitive -> &Primitive (auto-deref)"),
         Rule("R1", "Float ( f ) if f == & 0.0", "Float ( f ) if f_is_zero ( f )", why="float comparison with 0.0 as uninterpreted predicate"),
+        Rule("R1", "Float ( f ) if $$g =>", lambda bb: None if text(bb["g"]).startswith("f_is_zero") else "Float ( f ) if f_other_test ( f ) =>", why="any other test on the float divisor: an uninterpreted predicate (NOT known to hold exactly for 0.0)"),
         Rule("R1", "* $x == 0.0", "f_is_zero ( $x )", why="float comparison with 0.0 as uninterpreted predicate"),
         Rule("Rm", f"apply_math_bin_op_if_applicable ! ( t1 {SYM[op]} t2 )", f"math_{op} ( t1 , t2 )", count=1, why="macro invocation -> its expansion as a function"),
     ]
